@@ -143,9 +143,10 @@ theorem untrack_ok_iff (r r' : Reg) (a : Nat) (t : Ty) (e : Entry) :
         · intro h; cases h
         · rintro ⟨h1, h2, _⟩; subst h1; exact absurd h2 ht
 
-theorem free_ok_iff (r r' : Reg) (a : Nat) (oe : Option Entry) :
-    free r a = .ok (r', oe) ↔
-      (a = 0 ∧ r' = r ∧ oe = none) ∨ (a ≠ 0 ∧ ∃ e, r.get a = some e ∧ oe = some e ∧ r' = r.remove a) := by
+theorem free_ok_iff (r r' : Reg) (a : Nat) (t : Ty) (oe : Option Entry) :
+    free r a t = .ok (r', oe) ↔
+      (a = 0 ∧ r' = r ∧ oe = none) ∨
+      (a ≠ 0 ∧ ∃ e, r.get a = some e ∧ oe = some e ∧ r' = r.remove a ∧ (t = .none ∨ e.ty = t)) := by
   unfold free
   by_cases ha : a = 0
   · simp only [ha, if_true, Except.ok.injEq, Prod.mk.injEq, true_and, ne_eq, not_true_eq_false,
@@ -156,20 +157,34 @@ theorem free_ok_iff (r r' : Reg) (a : Nat) (oe : Option Entry) :
   · cases hg : r.get a with
     | none => simp [ha]
     | some e =>
-      simp only [ha, if_false, Except.ok.injEq, Prod.mk.injEq, false_and, ne_eq, not_false_eq_true,
-        Option.some.injEq, true_and, false_or]
-      constructor
-      · rintro ⟨h1, h2⟩; exact ⟨e, rfl, h2.symm, h1.symm⟩
-      · rintro ⟨e', h1, h2, h3⟩; subst h1; exact ⟨h3.symm, h2.symm⟩
+      by_cases ht : t = .none ∨ e.ty = t
+      · simp only [ha, if_false, ht, if_true, Except.ok.injEq, Prod.mk.injEq, false_and, ne_eq,
+          not_false_eq_true, Option.some.injEq, true_and, false_or]
+        constructor
+        · rintro ⟨h1, h2⟩; exact ⟨e, rfl, h2.symm, h1.symm, ht⟩
+        · rintro ⟨e', h1, h2, h3, _⟩; subst h1; exact ⟨h3.symm, h2.symm⟩
+      · simp only [ha, if_false, ht, false_and, ne_eq, not_false_eq_true, Option.some.injEq,
+          true_and, false_or]
+        constructor
+        · intro h; cases h
+        · rintro ⟨e', h1, _, _, h4⟩; subst h1; exact absurd h4 ht
 
-theorem free_err (r : Reg) (a : Nat) (x : RegErr) (h : free r a = .error x) :
-    x = .untracked ∧ a ≠ 0 ∧ r.get a = none := by
+/-- The two ways a release is refused: the address is not tracked, or (typed release only) it
+is tracked with another type. -/
+theorem free_err (r : Reg) (a : Nat) (t : Ty) (x : RegErr) (h : free r a t = .error x) :
+    a ≠ 0 ∧ ((x = .untracked ∧ r.get a = none) ∨
+             (x = .wrongType ∧ t ≠ .none ∧ ∃ e, r.get a = some e ∧ e.ty ≠ t)) := by
   unfold free at h
   by_cases ha : a = 0
   · simp [ha] at h
-  · cases hg : r.get a with
-    | none => simp [ha, hg] at h; exact ⟨h.symm, ha, rfl⟩
-    | some e => simp [ha, hg] at h
+  · refine ⟨ha, ?_⟩
+    cases hg : r.get a with
+    | none => simp [ha, hg] at h; exact Or.inl ⟨h.symm, rfl⟩
+    | some e =>
+      by_cases ht : t = .none ∨ e.ty = t
+      · simp [ha, hg, ht] at h
+      · simp only [ha, hg, if_false, ht, Except.error.injEq] at h
+        refine Or.inr ⟨h.symm, fun h0 => ht (Or.inl h0), e, rfl, fun h1 => ht (Or.inr h1)⟩
 
 theorem evStep_ok (row : FnRow) (args : List Arg) (w w' : World) (e : Event) (f : List Nat)
     (h : evStep row args w e = .ok (w', f)) : EvEffect w (argOf args e.p).a w' f := by
@@ -194,11 +209,11 @@ theorem evStep_ok (row : FnRow) (args : List Arg) (w w' : World) (e : Event) (f 
       subst h1; subst h2; subst hr
       exact .released ent ha hg
   case free =>
-    cases hv : free w.reg (argOf args e.p).a with
+    cases hv : free w.reg (argOf args e.p).a e.ty with
     | error x => simp [hv] at h
     | ok p =>
       obtain ⟨r, oe⟩ := p
-      rcases (free_ok_iff _ _ _ _).1 hv with ⟨_, hr, ho⟩ | ⟨ha, ent, hg, ho, hr⟩
+      rcases (free_ok_iff _ _ _ _ _).1 hv with ⟨_, hr, ho⟩ | ⟨ha, ent, hg, ho, hr, _⟩
       · subst ho
         simp only [hv, Except.ok.injEq, Prod.mk.injEq] at h
         obtain ⟨h1, h2⟩ := h; subst h1; subst h2; exact .same
@@ -379,17 +394,17 @@ theorem allocStrings_arrays (l : List Nat) (w : World) : (allocStrings w l).1.ar
   | nil => rfl
   | cons a as ih => simp only [allocStrings]; rw [ih, allocTracked_arrays]
 
-theorem freeElems_inv (l : List Nat) (w : World) (hi : Inv w) :
-    Inv (freeElems w l).1 ∧ (freeElems w l).1.arrays = w.arrays := by
+theorem freeElems_inv (t : Ty) (l : List Nat) (w : World) (hi : Inv w) :
+    Inv (freeElems t w l).1 ∧ (freeElems t w l).1.arrays = w.arrays := by
   induction l generalizing w with
   | nil => exact ⟨hi, rfl⟩
   | cons a as ih =>
     unfold freeElems
-    cases hf : free w.reg a with
+    cases hf : free w.reg a t with
     | error x => simpa using ih w hi
     | ok p =>
       obtain ⟨r, oe⟩ := p
-      rcases (free_ok_iff _ _ _ _).1 hf with ⟨_, _, ho⟩ | ⟨ha, ent, hg, ho, hr⟩
+      rcases (free_ok_iff _ _ _ _ _).1 hf with ⟨_, _, ho⟩ | ⟨ha, ent, hg, ho, hr, _⟩
       · subst ho; simpa using ih w hi
       · subst ho; subst hr
         have hi' : Inv { w with reg := w.reg.remove a, cleanups := (ent.alloc, a) :: w.cleanups } :=
@@ -438,8 +453,8 @@ theorem finish_inv (w : World) (c : Call) (fr : List Nat) (hi : Inv w)
     | none => simpa [har] using hi
     | some ar =>
       simp only []
-      obtain ⟨hi1, harr⟩ := freeElems_inv ar.elems w hi
-      have hf : (freeElems w ar.elems).1.arrays.find? (fun x => x.addr == (argOf c.args 0).a) = some ar := by
+      obtain ⟨hi1, harr⟩ := freeElems_inv c.row.elemTy ar.elems w hi
+      have hf : (freeElems c.row.elemTy w ar.elems).1.arrays.find? (fun x => x.addr == (argOf c.args 0).a) = some ar := by
         rw [harr]; exact har
       obtain ⟨hp, hnd⟩ := arrays_remove_perm _ _ ar hi1.akeys hf
       refine hi1.of_perm hi1.keys hnd ?_ rfl
